@@ -1,8 +1,10 @@
 #!/usr/bin/env python3
-"""Print a markdown table of /verif/seeded/*: what each seeded change does and which check caught it."""
+"""Print a markdown table of /verif/seeded/*: what each seeded change does, whether the check of its
+property caught it when it was first evaluated (seeded/FIRST_PASS.json) and what catches it now."""
 import json, os, sys
 
 VERIF = os.path.dirname(os.path.dirname(os.path.abspath(__file__)))
+fp = json.load(open(os.path.join(VERIF, "seeded", "FIRST_PASS.json")))["first_pass"]
 rows = []
 for d in sorted(os.listdir(os.path.join(VERIF, "seeded"))):
     p = os.path.join(VERIF, "seeded", d, "meta.json")
@@ -19,15 +21,23 @@ for d in sorted(os.listdir(os.path.join(VERIF, "seeded"))):
                 sigs = eval(c[i + len("signatures "):])
             except Exception:
                 sigs = []
-    caught = w.get("caught_by_check")
-    first = "missed at first; caught after strengthening" if w.get("after_strengthening") else ("caught" if caught else "MISSED")
+    caught_now = bool(w.get("caught_by_check"))
+    first = fp.get(d, {}).get("caught_at_first")
+    if caught_now and first is False:
+        res = "missed at first; caught after strengthening"
+    elif caught_now:
+        res = "caught"
+    elif w.get("caught_by_other_check"):
+        res = "caught by the check of " + w["caught_by_other_check"].split(":")[0]
+    else:
+        res = "NOT caught" + (" (%s)" % w["note"] if w.get("note") else "")
     what = (m.get("what_changed") or "").replace("\n", " ").replace("|", "/")
-    needs = (m.get("needs_to_manifest") or "").replace("\n", " ").replace("|", "/")
-    rows.append((d, what[:170], needs[:150], first, ", ".join("`%s`" % s for s in (sigs or [])[:2])))
-print("| id | change | needs to manifest | result | signature(s) |")
-print("|---|---|---|---|---|")
+    rows.append((d, what[:160], res, ", ".join("`%s`" % s for s in (sigs or [])[:2])))
+print("| id | change | result | signature(s) |")
+print("|---|---|---|---|")
 for r in rows:
-    print("| %s | %s | %s | %s | %s |" % r)
+    print("| %s | %s | %s | %s |" % r)
 n = len(rows)
-caught = sum(1 for r in rows if r[3] != "MISSED")
-print("\n%d seeded changes confirmed; %d caught by the check of their property (quick tier)." % (n, caught), file=sys.stderr)
+print("\n%d seeded changes confirmed; %d caught by the check of their own property, %d by another property's check, %d not caught." % (
+    n, sum(1 for r in rows if r[2].startswith(("caught", "missed at first")) and not r[2].startswith("caught by the check of")),
+    sum(1 for r in rows if r[2].startswith("caught by the check of")), sum(1 for r in rows if r[2].startswith("NOT"))), file=sys.stderr)
